@@ -262,6 +262,12 @@ func (ex *Exec) Run() {
 		ex.params[p.Name()] = v
 		ex.paramOrd = append(ex.paramOrd, p.Name())
 	}
+	if fn.Signature.Recv() != nil && len(args) > 0 {
+		if _, isPtr := args[0].T.Underlying().(*types.Pointer); isPtr {
+			ex.assume(c.Not(c.Eq(args[0].Tm, c.IntLit(0))))
+			ex.note(ex.Abstr, "assume: pointer receiver is non-nil")
+		}
+	}
 	ex.entrySt = st.clone()
 	fr := ex.newFrame(fn, "", ex.FC, ex.PC)
 	fr.top = true
